@@ -68,6 +68,8 @@ def gen(tier, rng, harness=None):
         lines += ["core3.reparse " + a, "!core3.rt " + a]
     from . import metagen
     lines += metagen.print_lines(rng, n)
+    from . import wholegen
+    lines += wholegen.print_lines(rng, n // 2)
     for t in modprops.corpus_texts():
         lines.append("!mod.stable - %s" % hx(t))
     # every construct of the one-construct catalogue (all enum keywords, attributes, instructions, constants, constant expressions,
